@@ -207,4 +207,5 @@ func main() {
 	genArchFns(repo, out)
 	genBoolFns(repo, out)
 	genPathFns(repo, out)
+	genExpandSites(repo, out)
 }
